@@ -27,6 +27,8 @@ def ty_to_bp(ty):
         return ["Array", ty_to_bp(ty.index_type), ty_to_bp(ty.elem_type)]
     if ty.is_function_type():
         return ["Fun", ty_to_bp(ty.return_type), [ty_to_bp(p) for p in ty.param_types]]
+    if getattr(ty, "args", None):
+        return ["Sort", str(ty.basename), [ty_to_bp(a) for a in ty.args]]
     return ["Sort", str(ty.basename)]
 
 
@@ -47,6 +49,8 @@ def bp_to_ty(bp, env):
     if bp[0] == "Fun":
         return tm.FunctionType(bp_to_ty(bp[1], env), [bp_to_ty(p, env) for p in bp[2]])
     if bp[0] == "Sort":
+        if len(bp) > 2 and bp[2]:
+            return tm.Type(bp[1], len(bp[2]))(*[bp_to_ty(a, env) for a in bp[2]])
         return tm.Type(bp[1], 0)
     raise ValueError(bp)
 
